@@ -6,7 +6,7 @@ PROP = dict(
     libs=['-pthread'],
     confirm=1,             # schedule dependent: one reproduction in three
     replay_config='tsan',
-    case_timeout=60,
+    case_timeout=240,
     level_text=('generated-input search over thread/operation assignments: '
                 '2..16 pthreads released from a barrier run (1) generated lists '
                 'of codec calls on a shared read-only pool (arrays, doubles, '
@@ -56,7 +56,7 @@ PROP = dict(
           'assignment)'),
     quick=dict(configs=['tsan', 'rel'], cases=8800, maxlen=400, workers=16,
                shares={'tsan': 9, 'rel': 7}),
-    thorough=dict(configs=['tsan', 'rel'], cases=60000, maxlen=400, workers=16,
+    thorough=dict(configs=['tsan', 'rel'], cases=36000, maxlen=400, workers=16,
                   shares={'tsan': 9, 'rel': 7}, fuzz_s=0),
     required_classes=['concurrent.for', 'concurrent.pfor', 'concurrent.dict',
                       'concurrent.dict.shared', 'concurrent.adaptive.auto',
